@@ -29,13 +29,16 @@ _XSD = """<xs:schema xmlns:xs="http://www.w3.org/2001/XMLSchema">
    <xs:element name="a" type="xs:int" minOccurs="0" maxOccurs="2"/>
    <xs:element name="b" type="xs:boolean" minOccurs="0"/>
    <xs:element name="k" minOccurs="0" maxOccurs="3"><xs:complexType>
-       <xs:attribute name="id" type="xs:ID"/><xs:attribute name="ref" type="xs:IDREF"/></xs:complexType></xs:element>
+       <xs:attribute name="id" type="xs:ID"/><xs:attribute name="ref" type="xs:IDREF"/>
+       <xs:attribute name="dref" type="xs:IDREF" default="x"/></xs:complexType></xs:element>  <!-- an absent attribute whose default is a reference -->
+   <xs:element name="f" fixed="x" minOccurs="0" maxOccurs="2"/>  <!-- untyped (mixed) element with a fixed value -->
   </xs:sequence><xs:attribute name="q" type="xs:int"%s/><xs:anyAttribute namespace="##local" processContents="strict"/></xs:complexType>
   <xs:unique name="u"><xs:selector xpath="a"/><xs:field xpath="."/></xs:unique>
  </xs:element></xs:schema>"""
 SCHEMAS = {}
 
-KINDS = ["a=1", "a=2", "a=x", "b= true ", "k id=x", "k ref=x", "k ref=y", "z", "a=T"]
+KINDS = ["a=1", "a=2", "a=x", "b= true ", "k id=x", "k ref=x", "k ref=y", "z", "a=T", "f= ", "f=x", "f=y"]
+SYM = 8          # index of the kind whose text comes from TEXTS
 #         valid  valid  bad    valid     id        ref ok     dangling  undeclared  symbolic text
 
 
@@ -53,9 +56,10 @@ configure({})
 def pre_doc(fn, **kw):
     if not (0 <= kw["n"] <= CFG["nmax"]):
         return False
-    nk = len(KINDS) if CFG["sym_text"] else len(KINDS) - 1
     for k in range(CFG["nmax"]):
-        if not (0 <= kw["c%d" % k] < nk):
+        if not (0 <= kw["c%d" % k] < len(KINDS)):
+            return False
+        if kw["c%d" % k] == SYM and not CFG["sym_text"]:
             return False
         if CFG.get("allowed") and kw["c%d" % k] not in CFG["allowed"][k]:
             return False
@@ -63,17 +67,20 @@ def pre_doc(fn, **kw):
         return False
     if "q" in kw and not (0 <= kw["q"] < len(QS)):
         return False
+    if "g" in kw and not (0 <= kw["g"] < len(ROOTS)):
+        return False
     return True
 
 
 TEXTS = ['1', ' 1 ', '01', '+1', 'x', '', '1 1', '2147483648', '1.0']
+ROOTS = ['r', '{urn:not-loaded}r', 'undeclared']          # the declared root, the same local name in a namespace the schema does not know, an undeclared name
 QS = [None, ('q', '1'), ('q', 'x'), ('zz', '1')]          # root attribute: absent, q valid, q invalid, one admitted by the strict wildcard but not declared
 
 
 def _build(kw):
     n = pick(kw["n"], CFG["nmax"] + 1)
     text = TEXTS[pick(kw["t"], len(TEXTS))] if "t" in kw else ""
-    root = ET.Element('r')
+    root = ET.Element(ROOTS[pick(kw["g"], len(ROOTS))] if "g" in kw else 'r')
     if "q" in kw:
         q = QS[pick(kw["q"], len(QS))]
         if q is not None:
@@ -309,8 +316,8 @@ def obligations(tier, seed):
         nmax = 2 if quick else 3
         out.append({"name": "agree/%s/structure-n%d" % (version, nmax), "fn": "h_agree", "pre": "pre_doc",
                     "args": [["n", "int"]] + [["c%d" % k, "int"] for k in range(nmax)],
-                    "config": {"nmax": nmax, "sym_text": False, "version": version}, "timeout": to, "twin_timeout": 40,
-                    "bound": "root + <= %d children from %r" % (nmax, KINDS[:-1])})
+                    "config": {"nmax": nmax, "sym_text": False, "version": version, "allowed": [list(range(8))] * nmax}, "timeout": to, "twin_timeout": 40,
+                    "bound": "root + <= %d children from %r" % (nmax, KINDS[:8])})
         out.append({"name": "agree/%s/symbolic-text" % version, "fn": "h_agree", "pre": "pre_doc",
                     "args": [["n", "int"], ["c0", "int"], ["c1", "int"], ["t", "int"]],
                     "config": {"nmax": 2, "sym_text": True, "tmax": 2, "alpha": "1 x", "version": version,
@@ -321,6 +328,14 @@ def obligations(tier, seed):
                     "config": {"nmax": 2, "sym_text": False, "version": version,
                                "allowed": [[0, 2], [2, 6]] if quick else None}, "timeout": to, "twin_timeout": 40,
                     "bound": "root attribute q from %r (inheritable in XSD 1.1) + <= 2 children" % (QS,)})
+        out.append({"name": "agree/%s/fixed-mixed" % version, "fn": "h_agree", "pre": "pre_doc",
+                    "args": [["n", "int"], ["c0", "int"], ["c1", "int"]],
+                    "config": {"nmax": 2, "sym_text": False, "version": version, "allowed": [[0, 9, 10, 11], [9, 10, 11]]}, "timeout": to, "twin_timeout": 40,
+                    "bound": "<= 2 children from an untyped element with a fixed value holding blank / equal / different text, after an optional <a>"})
+        out.append({"name": "agree/%s/root-name" % version, "fn": "h_agree", "pre": "pre_doc",
+                    "args": [["n", "int"], ["c0", "int"], ["c1", "int"], ["g", "int"]],
+                    "config": {"nmax": 2, "sym_text": False, "version": version, "allowed": [[0, 2], [0]]}, "timeout": to, "twin_timeout": 40,
+                    "bound": "root element name from %r + <= 2 children" % (ROOTS,)})
     for k in (1, 2, 3):
         out.append({"name": "cli-exit/%d-files" % k, "engine": "smt", "fn": "smt_cli_exit", "config": {"files": k, "max_errors": 1 << 16},
                     "timeout": 120, "bound": "%d files, 0..65536 errors each or a caught exception" % k})
